@@ -41,6 +41,31 @@ def emit(sj):
     out.append('  FSM::Instance m;')
     # make every state enter at least once is impossible in general; report what the initial activation saw
     out.append('  printf("},\\"seen\\":["); for (int i = 0; i < %d; ++i) printf("%%s%%d", i ? "," : "", g_seen[i]); printf("],");' % len(nodes))
+    # structural probe: the identifier arithmetic also places sub-trees (prong offsets, orthogonal bit units): every leaf must be
+    # reachable by its id, alone and together with a leaf of an orthogonal sibling branch
+    leaves = [n['id'] for n in nodes if n['kind'] == 'L']
+    def anc(i):
+        a = []
+        while i >= 0: a.append(i); i = nodes[i]['parent']
+        return a
+    pairs = []
+    rr = random.Random(len(nodes) * 7919 + len(regions))
+    cand = []
+    for x in leaves:
+        ax = anc(x)
+        for y in leaves:
+            if y <= x: continue
+            ay = set(anc(y))
+            lca = next(i for i in ax if i in ay)
+            if nodes[lca]['kind'] == 'O': cand.append((x, y))
+    rr.shuffle(cand); pairs = cand[:150]
+    if sum(1 for n in nodes if n['kind'] == 'C') < 2: pairs = []     # the request queue holds COMPO_COUNT requests: a pair needs two slots
+    out.append('  int probeFail = 0, probes = 0; const int LEAVES[] = { %s }; const int PAIRS[][2] = { %s };' % (', '.join(map(str, leaves)), ', '.join('{%d,%d}' % p for p in pairs) or '{0,0}'))
+    out.append('  const int PARENT[] = { %s };' % ', '.join(str(n['parent']) for n in nodes))
+    out.append('  auto chain = [&](int s) { for (; s >= 0; s = PARENT[s]) if (!m.isActive((hfsm2::StateID)s)) return false; return true; };')
+    out.append('  for (int d : LEAVES) { m.immediateChangeTo((hfsm2::StateID)d); ++probes; if (!chain(d)) ++probeFail; }')
+    out.append('  for (int i = 0; i < %d; ++i) { m.changeTo((hfsm2::StateID)PAIRS[i][0]); m.changeTo((hfsm2::StateID)PAIRS[i][1]); m.update(); ++probes; if (!chain(PAIRS[i][0]) || !chain(PAIRS[i][1])) ++probeFail; }' % len(pairs))
+    out.append('  printf("\\"probes\\":%d,\\"probe_fail\\":%d,", probes, probeFail);')
     out.append('  const auto& st = m.structure(); printf("\\"names\\":["); for (unsigned i = 0; i < st.count(); ++i) printf("%s\\"%s\\"", i ? "," : "", st[i].name ? st[i].name : ""); printf("],");')
     out.append('  printf("\\"active\\":["); for (int i = 0; i < %d; ++i) printf("%%s%%d", i ? "," : "", (int)m.isActive((hfsm2::StateID)i)); printf("],\\"asserts\\":%%d}\\n", g_bad);' % len(nodes))
     out.append('  return 0; }')
@@ -55,6 +80,8 @@ def id_shapes(seed, n_random, big):
         'w2': C('Composite', [L, L]), 'w3': C('Resumable', [L, L, L]), 'w5': C('Composite', [L] * 5), 'w7': C('Composite', [L] * 7),
         'w9h': C('Composite', [L] * 9, True), 'w16': C('Resumable', [L] * 16), 'w17': C('Composite', [L] * 17),
         'o7': O([C('Composite', [L, L])] + [L] * 6), 'o8': O([L] * 7 + [C('Resumable', [L, L, L])]), 'o9': O([L] * 4 + [C('Composite', [L, L], True)] + [L] * 4, True), 'o16': C('Composite', [O([L] * 16), L]), 'o17': C('Composite', [L, O([L] * 17, True)]),
+        'o9o2': O([O([L] * 8 + [C('Composite', [L, L])]), O([C('Composite', [L, L]), C('Resumable', [L, L])]), C('Composite', [L, L])]),
+        'o17o3': O([O([C('Composite', [L, L])] + [L] * 16, True), O([C('Composite', [L, L]), L, C('Composite', [L, L])])]),
         'o8last': C('Composite', [L, O([C('Composite', [L, L])] * 1 + [L] * 7)]),
         'deep8': None, 'mixwide': C('Composite', [C('Resumable', [L] * 3, True), O([L, C('Composite', [L] * 5), L], True), C('Composite', [L] * 6)] * 2, True),
     }
